@@ -59,6 +59,10 @@ def gen_literal(rng, kind, fs, derive_trait, bare_p=0.35, extra_names=(), allow_
     n = len(fs)
     bare = rng.random() < bare_p
     nph = 1 if bare else rng.choice([1, 2, 2, 3])
+    if not bare and rng.random() < 0.08:
+        # text and escapes only
+        lit = "".join(rng.choice(["}}", "{{", "a", " ", "}} ", "é", "{{}}", "x}}"]) for _ in range(rng.randrange(1, 4)))
+        return lit, [], {"bare": False, "pointer_named": [], "placeholders": []}
     pieces, args = [], []
     npos = 0
     named_used = []
@@ -71,7 +75,7 @@ def gen_literal(rng, kind, fs, derive_trait, bare_p=0.35, extra_names=(), allow_
         trait = rng.choice(ft[2]) if rng.random() < 0.6 else (derive_trait if derive_trait in ft[2] else ft[2][0])
         mods = ""
         if not bare or rng.random() < 0.25:
-            mods = rng.choice(["", "", ">6", "*^7", "+", "#", "04", ".1", "<4.2"])
+            mods = rng.choice(["", "", ">6", "*^7", "+", "-", "#", "0", "04", ".1", "<4.2", "3", "<"])
         if trait == "Debug" and rng.random() < 0.2 and "LowerHex" in ft[2]:
             letter = rng.choice(["x?", "X?"])
         else:
